@@ -1,0 +1,7 @@
+//! Verification hooks (cargo feature `verif`, off by default).
+//!
+//! Nothing in this module changes engine behaviour: it only exports data and
+//! thin pass-through constructors for crate-private types so that an external
+//! harness can drive and observe them.
+
+pub mod iotap;
